@@ -193,9 +193,43 @@ static void apis_strings(void)
 static void do_len(long L) { size_t l = (size_t) L; int a; if (is_bnd(l) || (thorough && l <= 130)) { for (a = 0; a < 16; a++) apis_len(l, a); } else { apis_len(l, 0); apis_len(l, (int) ((l * 7 + 1) & 15)); } }
 static void fin(void) { vf_stat("evaluations", n_eval); vf_stat("nontrivial", n_nontriv); n_eval = n_nontriv = 0; }
 
-int main(void)
+/* custom random sources with every combination of the optional members (stir, uniform, close) absent: installing them and calling each
+ * randombytes_* entry point is in contract (randombytes.h) and must not jump through a NULL pointer */
+static const char *cs_name(void) { return "verif-c12"; }
+static uint32_t cs_random(void) { return 7; }
+static void cs_stir(void) { }
+static uint32_t cs_uniform(const uint32_t n) { return n ? 1 % n : 0; }
+static void cs_buf(void * const b, const size_t n) { memset(b, 3, n); }
+static int cs_close(void) { return 0; }
+static void custom_sources(void)
+{
+    int mask, fresh;
+    for (fresh = 0; fresh < 2; fresh++) for (mask = 0; mask < 8; mask++) {
+        pid_t pid; int st; fflush(stdout); pid = fork();
+        if (pid == 0) {
+            struct randombytes_implementation im = { cs_name, cs_random, mask & 1 ? cs_stir : NULL, mask & 2 ? cs_uniform : NULL, cs_buf, mask & 4 ? cs_close : NULL }; unsigned char b[40];
+            signal(SIGSEGV, SIG_DFL); signal(SIGABRT, SIG_DFL);
+            if (fresh) { if (execl("/proc/self/exe", "h_c12", "custom-source", mask & 1 ? "1" : "0", mask & 2 ? "1" : "0", mask & 4 ? "1" : "0", (char *) NULL)) _exit(9); }
+            randombytes_set_implementation(&im); randombytes_stir(); (void) randombytes_random(); (void) randombytes_uniform(10); randombytes_buf(b, sizeof b); randombytes(b, 8);
+            { unsigned char sk[32]; crypto_box_keypair(b, sk); } (void) randombytes_close(); randombytes_stir(); randombytes_buf(b, 4); _exit(0);
+        }
+        waitpid(pid, &st, 0); n_eval++; n_nontriv++;
+        if (!(WIFEXITED(st) && WEXITSTATUS(st) == 0)) { char key[128]; snprintf(key, sizeof key, "sanitizer/custom-random-source/stir=%d/uniform=%d/close=%d/%s", mask & 1, (mask >> 1) & 1, (mask >> 2) & 1, fresh ? "before-sodium_init" : "after-sodium_init");
+            vf_fail(key, "process died or reported an error (status %#x) while using a random source with absent optional members", st); }
+    }
+}
+static int custom_source_fresh(char **argv)      /* re-executed image: the source is installed before sodium_init ever ran */
+{
+    struct randombytes_implementation im = { cs_name, cs_random, argv[2][0] == '1' ? cs_stir : NULL, argv[3][0] == '1' ? cs_uniform : NULL, cs_buf, argv[4][0] == '1' ? cs_close : NULL }; unsigned char b[64];
+    if (randombytes_set_implementation(&im) != 0 || sodium_init() != 0) return 5;
+    randombytes_stir(); (void) randombytes_uniform(10); randombytes_buf(b, 32); crypto_box_keypair(b, b + 32); (void) randombytes_close(); randombytes_buf(b, 4);
+    return 0;
+}
+
+int main(int argc, char **argv)
 {
     int pass, a;
+    if (argc == 5 && !strcmp(argv[1], "custom-source")) return custom_source_fresh(argv);
     vf_init_seed(); thorough = vf_tier_thorough(); MAXL = thorough ? 1100 : 300;
     signal(SIGABRT, on_abort); signal(SIGSEGV, on_abort); signal(SIGBUS, on_abort); signal(SIGILL, on_abort); signal(SIGFPE, on_abort);
     if (sodium_init() < 0) return 2;
@@ -209,6 +243,7 @@ int main(void)
         for (a = 0; a < 16; a++) apis_fixed(a);
         apis_strings(); fin();
     }
+    custom_sources(); fin();
     vf_sample("crypto_aead_aes256gcm_encrypt mlen=225 adlen=19 on exact heap blocks at alignment offsets 0..15 (ASan red zone at byte 225+16 of c)");
     vf_sample("crypto_pwhash_scryptsalsa208sha256_str_needs_rehash(\"$7$C6\") with the NUL as the last byte of its allocation");
     vf_sample("sodium_base642bin text {'A','=',0xE9} (exact 3-byte block) capacity 0, ignore \"\", end pointer given");
